@@ -2,6 +2,7 @@
 //! (C01 round trip, C02 output, C07 wire format, C09 streaming prefix + lag;
 //! C05 / C10 clauses for the codecs).
 mod arena_fill;
+mod bigblock;
 mod closure;
 mod codec;
 mod longrun;
@@ -23,6 +24,10 @@ fn run(ctx: &Ctx) -> Report {
             prod::alignment_family(ctx, &mut rep, &mut unit);
             closure::encoder_closure(ctx, &mut rep, &mut unit);
             closure::decoder_closure(ctx, &mut rep, &mut unit);
+            owning_iovec::verif::drain_quarantine();
+            bigblock::run(ctx, &mut rep, &mut unit);
+            longrun::run_roundtrip(ctx, &mut rep, &mut unit);
+            owning_iovec::verif::set_quarantine(true);
         }
         "C02" => {
             tiny::tier1(ctx, &mut rep, Focus::Output, &mut unit);
@@ -38,6 +43,9 @@ fn run(ctx: &Ctx) -> Report {
             prod::decoder_header_space(ctx, &mut rep, &mut unit);
             closure::encoder_closure(ctx, &mut rep, &mut unit);
             closure::decoder_closure(ctx, &mut rep, &mut unit);
+            owning_iovec::verif::drain_quarantine();
+            bigblock::run(ctx, &mut rep, &mut unit);
+            owning_iovec::verif::set_quarantine(true);
         }
         "C09" => {
             let t0 = std::time::Instant::now();
@@ -69,6 +77,7 @@ fn run(ctx: &Ctx) -> Report {
             arena_fill::arena_fill_family(ctx, &mut rep, &mut unit);
             owning_iovec::verif::drain_quarantine();
             longrun::run(ctx, &mut rep, &mut unit);
+            bigblock::run(ctx, &mut rep, &mut unit);
         }
         other => machinery_failure(&format!("hcobs_mc does not serve {}", other)),
     }
@@ -92,6 +101,9 @@ fn replay(ctx: &Ctx, text: &str) -> Result<String, String> {
     select_oracles(&ctx.prop);
     if field(text, "stream").is_some() {
         return longrun::replay(text);
+    }
+    if field(text, "big").is_some() || field(text, "droppoint").is_some() {
+        return bigblock::replay(text);
     }
     owning_iovec::verif::set_quarantine(true);
     let Some((side, limits, prefill, data, pieces)) = field(text, "case").and_then(tiny::parse_case) else {
